@@ -447,9 +447,10 @@ def generate(case, lib, processed_name, processed_text):
     wrappers = parse_wrappers_c(processed_text) if lang == "c" else parse_wrappers_cpp(processed_text, model)
     calls, findings = plan_calls(infos, wrappers, lang)
     src = []
-    if lang == "cpp":
-        src.append("#include <utility>\n#include <string>\n")
+    # the processed header comes first: nothing the mock includes may paper over a missing include
     src.append('#include "%s"\n' % processed_name)
+    if lang == "cpp":
+        src.append("#include <utility>\n#include <string>\n#include <type_traits>\n")
     if "S3" not in [it["name"] for it in lib.ordered_items()]:
         # the header does not mention S3: the mock's own sentinels still need the type
         src.append("struct S3 { uint8_t a; uint16_t b; uint64_t c; };")
